@@ -77,6 +77,8 @@ type Op struct {
 	Delta  bool     `json:"delta,omitempty"`
 	SetMem bool     `json:"set_mem,omitempty"`
 	Stdin  bool     `json:"stdin,omitempty"`
+	Strategy string `json:"strategy,omitempty"` // create: deploy strategy (default AUTO); FILL: Count = instances per node
+	Limit    int    `json:"limit,omitempty"`    // create: NodesLimit (FILL)
 	Label  int      `json:"label,omitempty"` // set-node: set the node's label "l" to this number (0: leave the labels)
 	Bind   bool     `json:"bind,omitempty"` // cpu-bind request: each instance owns its cores
 	// lambda: the caller's context is cancelled right before the first call of this method (client went away / async timeout)
@@ -307,11 +309,15 @@ func (d *driver) deployOpts(o *Op) *types.DeployOptions {
 	if o.Bind {
 		res = cw.CPUMemBind(float64(o.CPU)/100, o.Mem)
 	}
-	return &types.DeployOptions{
+	opts := &types.DeployOptions{
 		Name: "app", Entrypoint: &types.Entrypoint{Name: "web"}, Podname: podName(o.Pod), Image: "img",
 		Count: o.Count, DeployStrategy: "AUTO", NodeFilter: &types.NodeFilter{Podname: podName(o.Pod)},
 		Resources: res, OpenStdin: o.Stdin,
 	}
+	if o.Strategy != "" {
+		opts.DeployStrategy, opts.NodesLimit = o.Strategy, o.Limit
+	}
+	return opts
 }
 
 const chanDeadline = 25 * time.Second
@@ -677,7 +683,18 @@ func (o Op) coq() string {
 		}
 		return fmt.Sprintf("(OSetNode %d %s %s %s)", o.Node, by, mem, lab)
 	case "create":
-		return fmt.Sprintf("(OCreate %d %d %d %s %s)", o.Opi, o.Pod, o.Count, coqRes(o.CPU, o.Mem), plan())
+		count := o.Count
+		if o.Strategy == "FILL" {
+			// FILL: Count is per node; the model's count is the number of instances asked for overall = the plan's total
+			total := 0
+			for _, p := range o.Plan {
+				total += p[1]
+			}
+			if total > 0 {
+				count = total
+			}
+		}
+		return fmt.Sprintf("(OCreate %d %d %d %s %s)", o.Opi, o.Pod, count, coqRes(o.CPU, o.Mem), plan())
 	case "remove":
 		return fmt.Sprintf("(ORemove %s %s)", ids(), vh.Bool(o.Force))
 	case "dissociate":
